@@ -176,6 +176,10 @@ HANDMADE = [
     "pack:2\npu:2\n", "pack:2(unknown) pu:2", "pack:2(a b c) pu:2", "pack:2( ) pu:2", "pack:2() pu:2", "pack:2)( pu:2", "pack:2(indexes=)", "pu:1(indexes=)", "pu:1(indexes=0)",
     "pack:2(indexes=core) core:2 pu:1", "pu:2(indexes=1*65536:1*65536:1*65536:1*65536)", "group:2 [numa(indexes=pack)] socket:2 pu:1", "pu:8(indexes=1* 2:2*2:4*2)",
     "numa:3(indexes=0,1,1) pu:1", "pack:2 [numa(indexes=0,0)] pu:1", "pack:2(indexes=1,1) pu:1", "[nu]gr:1[nu]so:2Gr:3[nu]L1:1[nu(memory=2GB indexes=pa)]1",
+    "group1:2 group2:2 pu:2(indexes=group2:group1)", "group1:2 group2:2 pu:2(indexes=group1:group2)", "group3:2 pack:1 group1:3 pu:2(indexes=group1:pack)",
+    "group:2 group:2 pu:2(indexes=group2)", "group:2 group:3 core:2 pu:1(indexes=group1:core)", "group7:2 group:2 pu:1(indexes=group7:group)",
+    "[numa] pack:2 [numa] pu:2", "pack:2 [numa] [numa] pu:2", "pack:2 [numa] core:1 [numa] pu:2", "[numa(memory=1GB)] pack:2 pu:2", "pack:2 [numa(memorysidecachesize=1MB)] pu:2",
+    "pu:4(indexes=2x2)", "pu:4(indexes=2*x)", "pu:4(indexes=2*)", "pu:4(indexes=2*2:x)", "pu:4(indexes=2*2:1*y)",
     "numa:2(indexes=1,0) pu:1", "numa:2 core:2 pu:1", "pack:2 numa:2 pu:1", "pack:1 numa:1 core:1 pu:1", "core:1 pack:1 pu:2", "l1:1 l2:1 pu:2",
 ]
 
